@@ -331,6 +331,10 @@ def run(ctx):
                   "parse(%s) %s: tokens behind `--` go through the syntax check there, so `prog -- -` or `-- ---x` raises instead of yielding the positional%s"
                   % (", ".join(p0.get("type") or "?" for p0 in f.params), "builds its tokens itself (%s)" % builds[0] if builds else "does not delegate to parse(argc, argv)",
                      " - and for a `char**` / `const char*[]` argument this overload is the better match, so existing calls are rerouted" if f.is_pattern else ""), f)
+    # ---- R12.11: nothing on the options path reads an object it has just moved from
+    ctx.rule("R12.11", "no function of the options code reads a local / parameter after handing it to std::move (e.g. asking a moved-from token whether it was `--`)")
+    from .common import rule_no_use_after_move
+    rule_no_use_after_move(ctx, "R12.11", lambda f: "/options/" in f.file, "a moved-from token has an empty text: it is never `--`, so what follows the separator is not taken verbatim", minimum=40)
     # ---- R12.9: the accepted count is stored as wide as it is given
     ctx.rule("R12.9", "parser's integral settings are stored at least as wide as the setter's parameter (an accepted count of 2^32 or more is not reduced modulo 2^32)")
     from .common import rule_no_narrowing
